@@ -7,6 +7,7 @@ import (
 	ae "github.com/godaddy/asherah/go/appencryption"
 	"github.com/godaddy/asherah/go/appencryption/pkg/crypto/aead"
 
+	"verifh/h/env"
 	"verifh/vx"
 )
 
@@ -19,6 +20,13 @@ func AeadLayout() {
 	data := vx.Bytes("data", n)
 	key := vx.Bytes("key", 32)
 	keep := append([]byte(nil), data...)
+	// the data may be a window of a larger caller-owned buffer
+	var whole []byte
+	if vx.Choice("spare_capacity", 2) == 1 {
+		whole = make([]byte, n, n+40)
+		copy(whole, data)
+		data = whole
+	}
 	d0, s0 := vx.DrawCount(), vx.SealCount()
 	out, err := c.Encrypt(data, key)
 	vx.Assert("C18.encrypt_ok", err == nil)
@@ -32,6 +40,10 @@ func AeadLayout() {
 	vx.Assert("C18.sealed_under_given_key", vx.BytesEq(vx.SealKey(s0), key))
 	vx.Assert("C18.plaintext_is_the_data", vx.BytesEq(vx.SealPlain(s0), keep))
 	vx.Assert("C18.input_not_modified", vx.BytesEq(data, keep))
+	if whole != nil {
+		vx.Assert("C18.buffer_behind_input_untouched", vx.AllZero(whole[n:cap(whole)]))
+		vx.Assert("C18.output_does_not_alias_input", n == 0 || &out[0] != &whole[0])
+	}
 	// SDK reads what a reference writer produces (same bytes, rebuilt), and rejects a moved nonce
 	pt, err := c.Decrypt(ref, key)
 	vx.Assert("C18.reference_ciphertext_accepted", vx.And(err == nil, vx.BytesEq(pt, keep)))
@@ -130,4 +142,43 @@ func JsonShape() {
 	sb, _ := json.Marshal(sk)
 	vx.Assert("C18.json_shape_system_key", vx.JSONShape(sb) == shapeSK)
 	vx.Reach("C18.json_end")
+}
+
+
+// IdsOnTheWire: the key ids a real session emits - in the data row record and as metastore keys - are the documented
+// _SK_service_product / _IK_partition_service_product, with _region appended when the metastore is region-suffixed
+// (service and product differ, so a swap shows).
+func IdsOnTheWire() {
+	e := env.New()
+	suffix := ""
+	if vx.Choice("suffixed", 2) == 1 {
+		suffix = "us-west-2"
+		e.Store.Suffix = suffix
+	}
+	f := e.Factory(e.Policy(env.Policies[0], env.CacheDefault))
+	vx.Now()
+	vx.ClockFreeze(true)
+	s, err := f.GetSession("part1")
+	vx.Assert("C18.ids_getsession", err == nil)
+	rec, err := s.Encrypt(env.Ctx, vx.Bytes("payload", 2))
+	vx.Assert("C18.ids_encrypt_ok", err == nil)
+	if err != nil {
+		vx.Stop()
+	}
+	wantIK := "_IK_part1_" + env.Service + "_" + env.Product
+	wantSK := "_SK_" + env.Service + "_" + env.Product
+	if suffix != "" {
+		wantIK += "_" + suffix
+		wantSK += "_" + suffix
+	}
+	vx.Assert("C18.record_names_documented_ik_id", rec.Key.ParentKeyMeta.ID == wantIK)
+	ik := e.Store.Row(wantIK, rec.Key.ParentKeyMeta.Created)
+	vx.Assert("C18.ik_stored_under_documented_id", ik != nil)
+	if ik != nil && ik.ParentKeyMeta != nil {
+		vx.Assert("C18.ik_names_documented_sk_id", ik.ParentKeyMeta.ID == wantSK)
+		vx.Assert("C18.sk_stored_under_documented_id", e.Store.Row(wantSK, ik.ParentKeyMeta.Created) != nil)
+	} else {
+		vx.Assert("C18.ik_row_has_parent", false)
+	}
+	vx.Reach("C18.ids_wire_end")
 }
